@@ -532,8 +532,9 @@ def apply_method(e, t):
     raise ValueError(t[0])
 
 
-def resolved_origin(e, t):
-    """The origin the documentation promises when None is passed (centre before the call; zero for mirror)."""
+def resolved_origin(e, t, mode="method"):
+    """The origin the documentation promises when None is passed (centre before the call; zero for mirror;
+    Point.rotate/scale and Array.rotate/scale document the zero origin, ElementBase.transform the centre)."""
     np = _np()
     if t[0] == "translate":
         return None
@@ -544,7 +545,7 @@ def resolved_origin(e, t):
         return [0.0, 0.0, 0.0]
     from classy_blocks.construct.array import Array
     from classy_blocks.construct.point import Point
-    if isinstance(e, (Point, Array)):
+    if isinstance(e, (Point, Array)) and mode == "method":
         return [0.0, 0.0, 0.0]  # documented default of the leaves
     with warnings.catch_warnings():
         warnings.simplefilter("ignore")
@@ -601,7 +602,7 @@ def transform_entity(e, tlist, mode):
         # centre the implementation itself reports before each step on a twin that is moved step by step
         twin = e.copy() if any(t[0] in ("rotate", "scale") and t[-1] is None for t in tlist) else None
         for t in tlist:
-            o = resolved_origin(twin if twin is not None else e, t)
+            o = resolved_origin(twin if twin is not None else e, t, "list")
             maps.append(affine_of(t, o))
             if twin is not None:
                 with warnings.catch_warnings():
@@ -1295,7 +1296,7 @@ class C09(Prop):
     pid = "C09"
     title = "Transforming or copying an entity equals transforming its output geometry"
     prebuilt = ["Base/Vec3.v", "Model/C09_Transform.v", "Proofs/C09_Leaves.v", "Proofs/C09_Commute.v", "Proofs/C09_Equivariance.v",
-                "Proofs/C09_Traverse.v", "Proofs/C09_Main.v"]
+                "Proofs/C09_Traverse.v", "Proofs/C09_Heap.v", "Proofs/C09_ArcLength.v", "Proofs/C09_Main.v", "Proofs/C09_Output.v"]
     gen_dependent_files = ["Gen/C09/Tables.v"]
     property_files = ["Properties/C09.v"]
     trusted = [
@@ -1306,12 +1307,10 @@ class C09(Prop):
         "the row reversal of Spline.reverse - are invisible to the call log and covered by the direct oracle only)",
         "tabulation: class graphs and helper write-sets are measured on one live object / call per class and container form",
         "traversal and leaf correspondences are sampled (random entities and transformations), not exhaustive",
+        "not modelled, compared by the direct oracle only: `origin` arcs with a non-equidistant centre (adjust branch), interpolated "
+        "curves (scipy splines), CircleCurve points, get_closest_param (scipy minimize, 1e-4), shear",
     ]
-    partial = [
-        "C09_output_partial: arc_length_3point(A ps, A pb, A pe) = |k| arc_length_3point(ps, pb, pe) (acos) is stated in C09_output_stmt "
-        "but not proved; `origin` arcs with a non-equidistant centre (adjust branch), interpolated curves (scipy splines) and CircleCurve "
-        "points are not modelled: all of these are compared by the direct oracle on every case",
-    ]
+    partial = []  # no *_partial theorem is left; what the model does not cover is listed in `trusted`
 
     # -- S1 ------------------------------------------------------------------------------------
     def generate(self, ctx):
@@ -1339,10 +1338,10 @@ class C09(Prop):
         if getattr(self, "_unknown_overrides", None):
             res.notes.append("classes overriding a transformation method that the model does not special-case "
                              "(behaviour still compared through the call log): %s" % ", ".join(self._unknown_overrides))
-        n_trav = ctx.n(260, 4000)
-        n_oracle = ctx.n(240, 4000)
+        n_trav = ctx.n(260, 2000)
+        n_oracle = ctx.n(240, 3000)
         n_leaf = ctx.n(160, 6000)
-        leaf_cap = ctx.n(12, 400)  # goals per (leaf class, method, origin handling)
+        leaf_cap = ctx.n(12, 150)  # goals per (leaf class, method, origin handling)
         classes = list(ALL_CLASSES)
         # (U) traversal cases
         trav = []
